@@ -233,6 +233,34 @@ def check(run: Run) -> None:
             # recorded finding for the names the structure CLASS uses for its own data (size, alignment, dynamic, fields, lookup)
             sig = "C17/anonymous-member-named-like-a-class-attribute" if mname in ("size", "alignment", "dynamic", "fields", "lookup") else "C17/anonymous-member"
             run.report(sig, {"definition": text, "ops": [{"op": f"parse 0102000300; read .{mname}; build by assignment; ==; bool of the default", "observed": repr(got)[:300], "expected": repr(want)}]})
+    # members called `_` (the one name the library admits more than once in a structure) are still separate fields of the structure:
+    # the hypothesis `NoDup names` of construction_is_default_then_assignment, run on the implementation
+    for compiled in (False, True):
+        n_oracle += 1
+        text = "struct main { uint8 _; uint8 a; uint8 _; };"
+        obs = []
+        try:
+            T = structs.load(text, compiled=compiled).resolve("main")
+            if T(b"\x01\x02\x03").dumps() != b"\x01\x02\x03":
+                obs.append(f"parsed from 010203 dumps {T(bytes([1, 2, 3])).dumps().hex()}")
+            if T(b"\x01\x02\x03") == T(b"\x09\x02\x03"):
+                obs.append("instances parsed from 010203 and 090203 compare equal")
+            y = T()
+            y._ = 7
+            if sum(1 for b in y.dumps() if b) != 1:
+                obs.append(f"one assignment to _ on a default instance dumps {y.dumps().hex()}")
+            try:
+                if T(1, 2, 3).dumps() != b"\x01\x02\x03":
+                    obs.append(f"main(1, 2, 3) dumps {T(1, 2, 3).dumps().hex()}")
+            except TypeError as e:
+                obs.append(f"main(1, 2, 3): TypeError {e}")
+        except Exception as e:  # noqa: BLE001
+            obs.append(f"{type(e).__name__}: {e}")
+        if obs:
+            failures += 1
+            exact = len(obs) == 4 and obs[0].endswith("030203") and obs[2].endswith("070007") and "TypeError" in obs[3]
+            run.report("C17/repeated-underscore-members" if exact else "C17/repeated-members", {"definition": text, "load_kwargs": {"compiled": compiled, "align": False},
+                       "ops": [{"op": "parse / compare / assign / construct", "observed": obs, "expected": "three fields of one byte each: the dump is the input, the first byte takes part in ==, one assignment changes one byte, three positional values are accepted"}]})
     F.obligation_fallback(run, ok, bool(failures or mism))
     F.finish_cov(run, items, mism,
                  "part 1: per round 6 structure classes with the SAME field count in one cstruct object (names permuted, reversed, keyword-like, identical shapes in two classes): "
